@@ -49,7 +49,8 @@ type c09Fix struct {
 	users    []sdk.AccAddress
 	height   int64
 	lend     bool   // lend fixture present (generation 2 only)
-	lendCol  uint64 // collateral asset of the lend fixture
+	lendCol  uint64 // collateral asset of the same-pool borrows (LA)
+	lendCol2 uint64 // collateral asset of the cross-pool borrows (LB)
 	poolMod  string // lend pool module name
 }
 
@@ -377,18 +378,29 @@ func (f *c09Fix) ids() (lockedID, auctionID uint64) {
 	return f.app.LiquidationKeeper.GetLockedVaultID(f.ctx), f.app.AuctionKeeper.GetAuctionID(f.ctx)
 }
 
-// borrow projection (generation 2 lend fixture): the debt the code will look at is AmountOut + trunc(interest after the
-// in-memory accrual) — obtained from the real keeper on a throw-away branch (external value, DESIGN §3.4)
-func (f *c09Fix) borrowsField() string {
-	if !f.lend {
-		return ""
-	}
+// borrow projection (generation 2 lend fixture). Raw records only — WHICH threshold applies is decided by the model
+// (Borrow.bridge), not here. The debt the code will look at is AmountOut + trunc(interest after the in-memory accrual),
+// obtained from the real keeper on a throw-away branch (external value, DESIGN §3.4).
+type c09Borrow struct {
+	id                     uint64
+	liquidated             bool
+	amountIn, debt         sdk.Int
+	assetIn, assetOut      uint64
+	bridged                sdk.Int
+	bridgedAsset, t1, t2   uint64
+	emode                  bool
+	lt, elt, ltT1, ltT2    sdk.Dec
+	app, pool              uint64
+	missing                bool
+}
+
+func (f *c09Fix) borrowRecords() []c09Borrow {
 	ids, _ := f.app.LendKeeper.GetBorrows(f.ctx)
-	var parts []string
+	var out []c09Borrow
 	for _, id := range ids {
 		bp, ok := f.app.LendKeeper.GetBorrow(f.ctx, id)
 		if !ok {
-			parts = append(parts, u(id)+":missing")
+			out = append(out, c09Borrow{id: id, missing: true})
 			continue
 		}
 		pair, _ := f.app.LendKeeper.GetLendPair(f.ctx, bp.PairID)
@@ -401,41 +413,114 @@ func (f *c09Fix) borrowsField() string {
 				debt = acc.AmountOut.Amount.Add(acc.InterestAccumulated.TruncateInt())
 			}
 		}
-		var first, second uint64
+		r := c09Borrow{id: id, liquidated: bp.IsLiquidated, amountIn: bp.AmountIn.Amount, debt: debt, assetIn: pair.AssetIn, assetOut: pair.AssetOut,
+			bridged: bp.BridgedAssetAmount.Amount, emode: pair.IsEModeEnabled, app: lp.AppID, pool: lp.PoolID}
 		for _, d := range pool.AssetData {
 			if d.AssetTransitType == 2 {
-				first = d.AssetID
+				r.t1 = d.AssetID
 			}
 			if d.AssetTransitType == 3 {
-				second = d.AssetID
+				r.t2 = d.AssetID
+			}
+		}
+		for _, a := range f.app.AssetKeeper.GetAssets(f.ctx) {
+			if a.Denom == bp.BridgedAssetAmount.Denom {
+				r.bridgedAsset = a.Id
 			}
 		}
 		rp, _ := f.app.LendKeeper.GetAssetRatesParams(f.ctx, pair.AssetIn)
-		r1, _ := f.app.LendKeeper.GetAssetRatesParams(f.ctx, first)
-		r2, _ := f.app.LendKeeper.GetAssetRatesParams(f.ctx, second)
-		lt := rp.LiquidationThreshold
-		if pair.IsEModeEnabled {
-			lt = rp.ELiquidationThreshold
-		}
-		bridge := "0"
-		if !bp.BridgedAssetAmount.Amount.IsZero() {
-			fa, _ := f.app.AssetKeeper.GetAsset(f.ctx, first)
-			if bp.BridgedAssetAmount.Denom == fa.Denom {
-				bridge = "1"
-			} else {
-				bridge = "2"
-			}
-		}
-		raw := func(d sdk.Dec) string {
+		r1, _ := f.app.LendKeeper.GetAssetRatesParams(f.ctx, r.t1)
+		r2, _ := f.app.LendKeeper.GetAssetRatesParams(f.ctx, r.t2)
+		nz := func(d sdk.Dec) sdk.Dec {
 			if d.IsNil() {
-				return "0"
+				return sdk.ZeroDec()
 			}
-			return d.BigInt().String()
+			return d
 		}
-		parts = append(parts, strings.Join([]string{u(id), u(lp.AppID), u(lp.PoolID), u(pair.AssetIn), u(pair.AssetOut), bp.AmountIn.Amount.String(), debt.String(),
-			bridge, b01(bp.IsLiquidated), raw(lt), raw(r1.LiquidationThreshold), raw(r2.LiquidationThreshold)}, ":"))
+		r.lt, r.elt, r.ltT1, r.ltT2 = nz(rp.LiquidationThreshold), nz(rp.ELiquidationThreshold), nz(r1.LiquidationThreshold), nz(r2.LiquidationThreshold)
+		out = append(out, r)
+	}
+	return out
+}
+
+func (f *c09Fix) borrowsField() string {
+	if !f.lend {
+		return ""
+	}
+	raw := func(d sdk.Dec) string {
+		if d.IsNil() {
+			return "0"
+		}
+		return d.BigInt().String()
+	}
+	var parts []string
+	for _, r := range f.borrowRecords() {
+		if r.missing {
+			parts = append(parts, u(r.id)+":missing")
+			continue
+		}
+		parts = append(parts, strings.Join([]string{u(r.id), u(r.app), u(r.pool), u(r.assetIn), u(r.assetOut), r.amountIn.String(), r.debt.String(),
+			r.bridged.String(), u(r.bridgedAsset), u(r.t1), u(r.t2), b01(r.liquidated), b01(r.emode), raw(r.lt), raw(r.elt), raw(r.ltT1), raw(r.ltT2)}, ":"))
 	}
 	return strings.Join(parts, ";")
+}
+
+// statistics only (never fed to the model): kind of each borrow the coming borrow pass will look at, and whether its
+// ratio lies in the band between the two composite thresholds
+func (f *c09Fix) borrowStats(before bool, judged map[uint64]string) map[uint64]string {
+	if !f.lend {
+		return nil
+	}
+	recs := f.borrowRecords()
+	if !before {
+		for _, r := range recs {
+			if k, ok := judged[r.id]; ok && r.liquidated {
+				f.tr.Count("borrow:seized:" + k)
+			}
+		}
+		return nil
+	}
+	out := map[uint64]string{}
+	h, _ := f.app.NewliqKeeper.GetLiquidationOffsetHolder(f.ctx, liq2types.VaultLiquidationsOffsetPrefix, 1)
+	batch := int(f.app.NewliqKeeper.GetParams(f.ctx).LiquidationBatchSize)
+	st, en := liq2types.GetSliceStartEndForLiquidations(len(recs), int(h.CurrentOffset), batch)
+	if st == en {
+		st, en = liq2types.GetSliceStartEndForLiquidations(len(recs), 0, batch)
+	}
+	for i, r := range recs {
+		if i < st || i >= en || r.missing || r.liquidated {
+			continue
+		}
+		kind := "same"
+		if !r.bridged.IsZero() {
+			kind = "transit2"
+			if r.bridgedAsset == r.t1 {
+				kind = "transit1"
+			}
+		}
+		out[r.id] = kind
+		f.tr.Count("borrow:judged:" + kind)
+		if kind != "same" {
+			a1, _ := f.app.AssetKeeper.GetAsset(f.ctx, r.assetIn)
+			a2, _ := f.app.AssetKeeper.GetAsset(f.ctx, r.assetOut)
+			var ratio sdk.Dec
+			var err error
+			p, _ := try(func() { ratio, err = f.app.LendKeeper.CalculateCollateralizationRatio(f.ctx, r.amountIn, a1, r.debt, a2) })
+			if !p && err == nil {
+				base := r.lt
+				if r.emode {
+					base = r.elt
+				}
+				c1, c2 := base.Mul(r.ltT1), base.Mul(r.ltT2)
+				lo, hi := sdk.MinDec(c1, c2), sdk.MaxDec(c1, c2)
+				if ratio.GT(lo) && ratio.LTE(hi) {
+					f.tr.Count("borrow:judged-in-band:" + kind)
+					out[r.id] = kind + "-band"
+				}
+			}
+		}
+	}
+	return out
 }
 
 func (f *c09Fix) pre() []string {
@@ -515,6 +600,7 @@ func (f *c09Fix) block() string {
 	pre := f.pre()
 	lid, aid := f.ids()
 	var p bool
+	judged := f.borrowStats(true, nil)
 	bctx, write := f.ctx.CacheContext() // so that a panicking hook leaves a well-defined state for the next block
 	if f.gen == 2 {
 		p, _ = try(func() { liquidationsV2.BeginBlocker(bctx, abci.RequestBeginBlock{}, f.app.NewliqKeeper) })
@@ -528,6 +614,7 @@ func (f *c09Fix) block() string {
 	} else {
 		write()
 		f.tr.Count("block:ok")
+		f.borrowStats(false, judged)
 	}
 	if l2, _ := f.ids(); l2 > lid {
 		f.tr.Stats["seized:sweep"] += int(l2 - lid)
@@ -641,10 +728,12 @@ func (f *c09Fix) runSequence(nBlocks int) {
 						f.tr.Count(fmt.Sprintf("op:aimratio:%d", d))
 					}
 				}
+			case q < 74 && f.lend && rng.Chance(75): // price aimed at a borrow: ratio = one of the thresholds, or inside the band
+				f.aimBorrow()
 			case q < 74: // random price move
 				id := f.collat[rng.Intn(len(f.collat))]
 				if f.lend && rng.Chance(50) {
-					id = f.lendCol
+					id = []uint64{f.lendCol, f.lendCol2}[rng.Intn(2)]
 				}
 				tw, _ := f.app.MarketKeeper.GetTwa(f.ctx, id)
 				np := tw.Twa * uint64(rng.Range(60, 125)) / 100
@@ -697,6 +786,11 @@ func (f *c09Fix) runSequence(nBlocks int) {
 				if f.gen == 2 && rng.Chance(10) {
 					lt = uint64(rng.Range(1, 2))
 				}
+				if f.lend && rng.Chance(50) { // somebody's liquidate message for a borrow
+					if recs := f.borrowRecords(); len(recs) > 0 {
+						id, lt = recs[rng.Intn(len(recs))].id, 1
+					}
+				}
 				f.liquidateMsg(id, appID, lt)
 			}
 		}
@@ -728,6 +822,7 @@ func TestC09(t *testing.T) {
 		c09WitnessStarved(t, app, base, tr, 1, 3)
 	}
 	c09WitnessBorrowLeak(t, app, base, tr) // repaired by c15713f: nothing is flagged, nothing moves
+	c09WitnessTransitBand(t, app, base, tr)
 
 	// ---- pure helper: GetSliceStartEndForLiquidations, exhaustive small and wide random
 	for l := -2; l <= 9; l++ {
@@ -766,7 +861,7 @@ func TestC09(t *testing.T) {
 	for s := 0; s < nSeq; s++ {
 		gen := 1 + s%2
 		ctx, _ := base.CacheContext()
-		withLend := gen == 2 && s%6 == 1
+		withLend := gen == 2 && s%4 == 1
 		f := c09Build(t, app, ctx, gen, rng, tr, withLend)
 		if withLend {
 			c09LendFixture(f)
@@ -908,11 +1003,15 @@ func c09RatioChecks(t *testing.T, app *chain.App, base sdk.Context, tr *Trace, r
 }
 
 // ---------------------------------------------------------------------------------------------------------------
-// lend fixture (generation 2): one pool, same-pool borrows of LB against cLA collateral (after x/liquidationsV2's own
-// keeper tests). Needs three apps (the lend app id is 3).
+// lend fixture (generation 2), after x/liquidationsV2's own keeper tests: two pools sharing the transit assets LC
+// (AssetTransitType 2, "first") and LA (type 3, "second") with DIFFERENT liquidation thresholds.
+//   same-pool borrows : lend LA in pool 1, borrow LB                    (threshold of LA, e-mode variant when the pair is in e-mode)
+//   cross-pool borrows: lend LB in pool 1, borrow LD from pool 2, bridged through LC while pool 1 holds enough LC
+//                       (threshold LB × LC), through LA afterwards (threshold LB × LA)
+// Needs three apps (the lend app id is 3, name "commodo").
 // ---------------------------------------------------------------------------------------------------------------
 func c09LendFixture(f *c09Fix) {
-	app, ctx, t := f.app, f.ctx, f.t
+	app, ctx, t, rng := f.app, f.ctx, f.t, f.rng
 	mk := func(name string, price uint64) uint64 {
 		denom := "u" + strings.ToLower(name)
 		if err := app.AssetKeeper.AddAssetRecords(ctx, assettypes.Asset{Name: name, Denom: denom, Decimals: c09Pow10(6), IsOnChain: true, IsOraclePriceRequired: true, IsCdpMintable: true}); err != nil {
@@ -923,44 +1022,76 @@ func c09LendFixture(f *c09Fix) {
 		f.setPrice(id, price, true)
 		return id
 	}
-	la, lb, lc := mk("LENDA", 2000000), mk("LENDB", 2000000), mk("LENDC", 1000000)
-	ca, cb, cc := mk("CLENDA", 1000000), mk("CLENDB", 2000000), mk("CLENDC", 2000000)
-	f.assets = append(f.assets, la, lb)
+	la, lb, lc, ld := mk("LENDA", 2000000), mk("LENDB", 2000000), mk("LENDC", 1000000), mk("LENDD", 1500000)
+	ca, cb, cc, cd := mk("CLENDA", 1000000), mk("CLENDB", 2000000), mk("CLENDC", 2000000), mk("CLENDD", 2000000)
+	f.assets = append(f.assets, la, lb, lc, ld)
 	d := sdk.MustNewDecFromStr
-	data := []*lendtypes.AssetDataPoolMapping{
-		{AssetID: la, AssetTransitType: 3, SupplyCap: sdk.NewDec(5000000000000000000)},
-		{AssetID: lb, AssetTransitType: 1, SupplyCap: sdk.NewDec(1000000000000000000)},
-		{AssetID: lc, AssetTransitType: 2, SupplyCap: sdk.NewDec(5000000000000000000)},
-	}
-	lt := sdk.NewDecWithPrec(int64(f.rng.Range(720, 800)), 3)
 	must := func(err error) {
 		if err != nil {
 			t.Fatal(err)
 		}
 	}
+	// distinct thresholds for the two transit assets (and the collateral of the cross-pool borrows)
+	set := []int64{700, 740, 780, 820, 860, 900}
+	i1 := rng.Intn(len(set))
+	i2 := (i1 + 1 + rng.Intn(len(set)-1)) % len(set)
+	ltA, ltC := sdk.NewDecWithPrec(set[i1], 3), sdk.NewDecWithPrec(set[i2], 3) // LA = second transit, LC = first transit
+	ltB := sdk.NewDecWithPrec(int64(rng.Range(600, 800)), 3)
+	ltv := func(x sdk.Dec) sdk.Dec { return x.Sub(d("0.05")) }
+	data1 := []*lendtypes.AssetDataPoolMapping{
+		{AssetID: la, AssetTransitType: 3, SupplyCap: sdk.NewDec(5000000000000000000)},
+		{AssetID: lb, AssetTransitType: 1, SupplyCap: sdk.NewDec(1000000000000000000)},
+		{AssetID: lc, AssetTransitType: 2, SupplyCap: sdk.NewDec(5000000000000000000)},
+	}
+	data2 := []*lendtypes.AssetDataPoolMapping{
+		{AssetID: ld, AssetTransitType: 1, SupplyCap: sdk.NewDec(3000000000000000000)},
+		{AssetID: la, AssetTransitType: 3, SupplyCap: sdk.NewDec(5000000000000000000)},
+		{AssetID: lc, AssetTransitType: 2, SupplyCap: sdk.NewDec(5000000000000000000)},
+	}
 	must(app.LendKeeper.AddAssetRatesParams(ctx, lendtypes.AssetRatesParams{AssetID: lc, UOptimal: d("0.8"), Base: d("0.002"), Slope1: d("0.06"), Slope2: d("0.6"), EnableStableBorrow: true,
-		StableBase: d("0.04"), StableSlope1: d("0.04"), StableSlope2: d("0.06"), Ltv: d("0.8"), LiquidationThreshold: d("0.85"), LiquidationPenalty: d("0.025"), LiquidationBonus: d("0.025"), ReserveFactor: d("0.1"), CAssetID: cc}))
+		StableBase: d("0.04"), StableSlope1: d("0.04"), StableSlope2: d("0.06"), Ltv: ltv(ltC), LiquidationThreshold: ltC, LiquidationPenalty: d("0.025"), LiquidationBonus: d("0.025"), ReserveFactor: d("0.1"), CAssetID: cc}))
 	must(app.LendKeeper.AddAssetRatesParams(ctx, lendtypes.AssetRatesParams{AssetID: la, UOptimal: d("0.75"), Base: d("0.002"), Slope1: d("0.07"), Slope2: d("1.25"), EnableStableBorrow: false,
-		StableBase: d("0.0"), StableSlope1: d("0.0"), StableSlope2: d("0.0"), Ltv: d("0.7"), LiquidationThreshold: lt, LiquidationPenalty: d("0.05"), LiquidationBonus: d("0.05"), ReserveFactor: d("0.2"), CAssetID: ca}))
+		StableBase: d("0.0"), StableSlope1: d("0.0"), StableSlope2: d("0.0"), Ltv: ltv(ltA), LiquidationThreshold: ltA, LiquidationPenalty: d("0.05"), LiquidationBonus: d("0.05"), ReserveFactor: d("0.2"), CAssetID: ca}))
 	must(app.LendKeeper.AddAssetRatesPoolPairs(ctx, lendtypes.AssetRatesPoolPairs{AssetID: lb, UOptimal: d("0.5"), Base: d("0.002"), Slope1: d("0.08"), Slope2: d("2.0"), EnableStableBorrow: false,
-		StableBase: d("0.0"), StableSlope1: d("0.0"), StableSlope2: d("0.0"), Ltv: d("0.5"), LiquidationThreshold: d("0.55"), LiquidationPenalty: d("0.05"), LiquidationBonus: d("0.05"), ReserveFactor: d("0.2"),
-		CAssetID: cb, ModuleName: "cmdx", CPoolName: "CMDX-ATOM-CMST", AssetData: data, MinUsdValueLeft: 1000000}))
+		StableBase: d("0.0"), StableSlope1: d("0.0"), StableSlope2: d("0.0"), Ltv: ltv(ltB), LiquidationThreshold: ltB, LiquidationPenalty: d("0.05"), LiquidationBonus: d("0.05"), ReserveFactor: d("0.2"),
+		CAssetID: cb, ModuleName: "cmdx", CPoolName: "CMDX-ATOM-CMST", AssetData: data1, MinUsdValueLeft: 1000000}))
+	must(app.LendKeeper.AddAssetRatesPoolPairs(ctx, lendtypes.AssetRatesPoolPairs{AssetID: ld, UOptimal: d("0.65"), Base: d("0.002"), Slope1: d("0.08"), Slope2: d("1.5"), EnableStableBorrow: false,
+		StableBase: d("0.0"), StableSlope1: d("0.0"), StableSlope2: d("0.0"), Ltv: d("0.6"), LiquidationThreshold: d("0.65"), LiquidationPenalty: d("0.05"), LiquidationBonus: d("0.05"), ReserveFactor: d("0.2"),
+		CAssetID: cd, ModuleName: "osmo", CPoolName: "OSMO-ATOM-CMST", AssetData: data2, MinUsdValueLeft: 1000000}))
 	f.poolMod = "cmdx"
 	f.lend = true
-	f.lendCol = la
-	// the lend pair LA -> LB
-	var pairID uint64
-	for i := uint64(1); i <= 12; i++ {
-		p, ok := app.LendKeeper.GetLendPair(ctx, i)
-		if ok && p.AssetIn == la && p.AssetOut == lb && !p.IsInterPool {
-			pairID = i
+	f.lendCol, f.lendCol2 = la, lb
+	var samePair, crossPair uint64
+	for _, p := range app.LendKeeper.GetLendPairs(ctx) {
+		if p.AssetIn == la && p.AssetOut == lb && !p.IsInterPool {
+			samePair = p.Id
+		}
+		if p.AssetIn == lb && p.AssetOut == ld && p.IsInterPool {
+			crossPair = p.Id
 		}
 	}
-	if pairID == 0 {
-		t.Fatal("lend pair not found")
+	if samePair == 0 || crossPair == 0 {
+		t.Fatalf("lend pairs not found: same %d cross %d", samePair, crossPair)
+	}
+	// e-mode on one or both pairs in some populations (asset/keeper: pair flag + e-mode LTV / threshold of the collateral asset)
+	setE := func(pairID, assetID uint64) {
+		p, _ := app.LendKeeper.GetLendPair(ctx, pairID)
+		p.IsEModeEnabled = true
+		app.LendKeeper.SetLendPair(ctx, p)
+		rp, _ := app.LendKeeper.GetAssetRatesParams(ctx, assetID)
+		rp.ELtv = rp.Ltv.Add(d("0.02"))
+		rp.ELiquidationThreshold = rp.LiquidationThreshold.Add(sdk.NewDecWithPrec(int64(rng.Range(20, 60)), 3))
+		app.LendKeeper.SetAssetRatesParams(ctx, rp)
+		f.tr.Count("lend:emode")
+	}
+	if rng.Chance(35) {
+		setE(samePair, la)
+	}
+	if rng.Chance(35) {
+		setE(crossPair, lb)
 	}
 	for _, a := range f.users {
-		for _, id := range []uint64{la, lb, lc} {
+		for _, id := range []uint64{la, lb, lc, ld} {
 			f.fund(a, f.denom(id), c09Pow10(20))
 		}
 	}
@@ -970,26 +1101,127 @@ func c09LendFixture(f *c09Fix) {
 			t.Fatalf("lend fixture: %s: %s", what, res)
 		}
 	}
-	ok(c09Deliver(app, ctx, lendtypes.NewMsgLend(u0, lb, sdk.NewCoin(f.denom(lb), sdk.NewInt(100000000000)), 1, 3)), "lend LB")
-	ok(c09Deliver(app, ctx, lendtypes.NewMsgFundModuleAccounts(1, la, u0, sdk.NewCoin(f.denom(la), sdk.NewInt(10000000000)))), "fund LA")
-	ok(c09Deliver(app, ctx, lendtypes.NewMsgFundModuleAccounts(1, lb, u0, sdk.NewCoin(f.denom(lb), sdk.NewInt(10000000000)))), "fund LB")
-	ok(c09Deliver(app, ctx, lendtypes.NewMsgFundModuleAccounts(1, lc, u0, sdk.NewCoin(f.denom(lc), sdk.NewInt(120000000)))), "fund LC")
-	nb := f.rng.Range(2, 6)
-	for i := 1; i <= nb && i < len(f.users); i++ {
-		ua := f.users[i].String()
-		amt := int64(f.rng.Range(50000000, 3000000000))
-		res := c09Deliver(app, ctx, lendtypes.NewMsgLend(ua, la, sdk.NewCoin(f.denom(la), sdk.NewInt(amt)), 1, 3))
-		if res != "ok" {
+	coin := func(id uint64, amt int64) sdk.Coin { return sdk.NewCoin(f.denom(id), sdk.NewInt(amt)) }
+	ok(c09Deliver(app, ctx, lendtypes.NewMsgLend(u0, lb, coin(lb, 100000000000), 1, 3)), "lend LB")
+	ok(c09Deliver(app, ctx, lendtypes.NewMsgLend(u0, ld, coin(ld, 100000000000), 2, 3)), "lend LD")
+	firstLeft := int64(rng.Range(150000000, 600000000)) // LC held by pool 1: what can be bridged through the FIRST transit asset
+	ok(c09Deliver(app, ctx, lendtypes.NewMsgFundModuleAccounts(1, la, u0, coin(la, 100000000000))), "fund LA")
+	ok(c09Deliver(app, ctx, lendtypes.NewMsgFundModuleAccounts(1, lb, u0, coin(lb, 10000000000))), "fund LB")
+	ok(c09Deliver(app, ctx, lendtypes.NewMsgFundModuleAccounts(1, lc, u0, coin(lc, firstLeft))), "fund LC")
+	ok(c09Deliver(app, ctx, lendtypes.NewMsgFundModuleAccounts(2, ld, u0, coin(ld, 10000000000))), "fund LD")
+	ok(c09Deliver(app, ctx, lendtypes.NewMsgFundModuleAccounts(2, la, u0, coin(la, 10000000000))), "fund LA 2")
+	ok(c09Deliver(app, ctx, lendtypes.NewMsgFundModuleAccounts(2, lc, u0, coin(lc, 1000000000))), "fund LC 2")
+	price := func(id uint64) int64 { tw, _ := app.MarketKeeper.GetTwa(ctx, id); return int64(tw.Twa) }
+	rate := func(id uint64, pairID uint64) sdk.Dec {
+		rp, _ := app.LendKeeper.GetAssetRatesParams(ctx, id)
+		p, _ := app.LendKeeper.GetLendPair(ctx, pairID)
+		if p.IsEModeEnabled {
+			return rp.ELtv
+		}
+		return rp.Ltv
+	}
+	nSame, nCross := rng.Range(1, 3), rng.Range(2, 5)
+	ui := 1
+	for i := 0; i < nSame && ui < len(f.users); i, ui = i+1, ui+1 {
+		ua := f.users[ui].String()
+		amt := int64(rng.Range(50000000, 3000000000))
+		if res := c09Deliver(app, ctx, lendtypes.NewMsgLend(ua, la, coin(la, amt), 1, 3)); res != "ok" {
 			f.tr.Count("lend:lend:" + res)
 			continue
 		}
 		lendID := app.LendKeeper.GetUserLendIDCounter(ctx)
-		// borrow at 62..70 % of the collateral value (LTV 0.7, equal prices)
-		out := amt * int64(f.rng.Range(620, 699)) / 1000
-		res = c09Deliver(app, ctx, lendtypes.NewMsgBorrow(ua, lendID, pairID, false, sdk.NewCoin(f.denom(ca), sdk.NewInt(amt)), sdk.NewCoin(f.denom(lb), sdk.NewInt(out))))
-		f.tr.Count("lend:borrow:" + res)
+		// loan value ≤ LTV × collateral value; take 88..99.5 % of that
+		max := rate(la, samePair).MulInt64(amt).MulInt64(price(la)).QuoInt64(price(lb))
+		out := max.MulInt64(int64(rng.Range(880, 995))).QuoInt64(1000).TruncateInt()
+		res := c09Deliver(app, ctx, lendtypes.NewMsgBorrow(ua, lendID, samePair, false, coin(ca, amt), sdk.NewCoin(f.denom(lb), out)))
+		f.tr.Count("lend:borrow-same:" + res)
+	}
+	for i := 0; i < nCross && ui < len(f.users); i, ui = i+1, ui+1 {
+		ua := f.users[ui].String()
+		// bridged quantity of LC = LTV(LB) × collateral value / price(LC); below what pool 1 still holds ⇒ first transit, else second
+		wantFirst := (i%2 == 0) && firstLeft > 60000000
+		var qty int64
+		if wantFirst {
+			qty = int64(rng.Range(20000000, int(firstLeft/2)))
+		} else {
+			qty = firstLeft + int64(rng.Range(1000000, 400000000))
+		}
+		ltvB := rate(lb, crossPair)
+		amt := sdk.NewDec(qty).MulInt64(price(lc)).QuoInt64(price(lb)).Quo(ltvB).Ceil().TruncateInt().Int64() + 2
+		if res := c09Deliver(app, ctx, lendtypes.NewMsgLend(ua, lb, coin(lb, amt), 1, 3)); res != "ok" {
+			f.tr.Count("lend:lend:" + res)
+			continue
+		}
+		lendID := app.LendKeeper.GetUserLendIDCounter(ctx)
+		// the bridged quantity the code will compute, and the transit asset it will pick
+		bval := sdk.NewDec(amt).Mul(ltvB).TruncateInt()
+		q1 := sdk.NewDecFromInt(bval).MulInt64(price(lb)).QuoInt64(price(lc))
+		transit, tq := lc, q1
+		if !q1.LT(sdk.NewDec(firstLeft)) {
+			transit, tq = la, sdk.NewDecFromInt(bval).MulInt64(price(lb)).QuoInt64(price(la))
+		}
+		rt, _ := app.LendKeeper.GetAssetRatesParams(ctx, transit)
+		max := rt.Ltv.Mul(sdk.NewDecFromInt(tq.TruncateInt())).MulInt64(price(transit)).QuoInt64(price(ld))
+		out := max.MulInt64(int64(rng.Range(880, 995))).QuoInt64(1000).TruncateInt()
+		res := c09Deliver(app, ctx, lendtypes.NewMsgBorrow(ua, lendID, crossPair, false, coin(cb, amt), sdk.NewCoin(f.denom(ld), out)))
+		kind := "transit1"
+		if transit == la {
+			kind = "transit2"
+		}
+		f.tr.Count("lend:borrow-" + kind + ":" + res)
+		if res == "ok" && transit == lc {
+			firstLeft -= tq.TruncateInt().Int64()
+		}
 	}
 	_ = lendkeeper.Keeper{}
+}
+
+// move the collateral price of a random open borrow so that its debt/collateral ratio lands on its own threshold, on
+// the other composite threshold, or between the two (±1 price unit)
+func (f *c09Fix) aimBorrow() {
+	var open []c09Borrow
+	for _, r := range f.borrowRecords() {
+		if !r.missing && !r.liquidated && r.amountIn.IsPositive() {
+			open = append(open, r)
+		}
+	}
+	if len(open) == 0 {
+		return
+	}
+	f.aimBorrowAt(open[f.rng.Intn(len(open))], f.rng.Intn(5), int64(f.rng.Range(-1, 1)))
+}
+
+// mode 0/1: the two composite thresholds, 2: the middle of the band, 3/4: quarter points (same-pool borrows: their threshold)
+func (f *c09Fix) aimBorrowAt(r c09Borrow, mode int, delta int64) {
+	base := r.lt
+	if r.emode {
+		base = r.elt
+	}
+	c1, c2 := base.Mul(r.ltT1), base.Mul(r.ltT2)
+	var target sdk.Dec
+	switch {
+	case r.bridged.IsZero():
+		target = base
+	default:
+		target = []sdk.Dec{c1, c2, c1.Add(c2).QuoInt64(2), c1.MulInt64(3).Add(c2).QuoInt64(4), c1.Add(c2.MulInt64(3)).QuoInt64(4)}[mode]
+	}
+	if !target.IsPositive() {
+		return
+	}
+	a1, _ := f.app.AssetKeeper.GetAsset(f.ctx, r.assetIn)
+	a2, _ := f.app.AssetKeeper.GetAsset(f.ctx, r.assetOut)
+	tw2, _ := f.app.MarketKeeper.GetTwa(f.ctx, r.assetOut)
+	// ratio = debt·pOut/dOut / (amtIn·pIn/dIn) = target  ⇒  pIn = debt·pOut·dIn / (dOut·amtIn·target)
+	p := sdk.NewDecFromInt(r.debt).MulInt64(int64(tw2.Twa)).MulInt(a1.Decimals).QuoInt(a2.Decimals).QuoInt(r.amountIn).Quo(target).TruncateInt()
+	if !p.IsUint64() || p.IsZero() {
+		return
+	}
+	pp := int64(p.Uint64()) + delta
+	if pp < 1 {
+		pp = 1
+	}
+	f.setPrice(r.assetIn, uint64(pp), true)
+	f.tr.Count("op:aimborrow")
 }
 
 // ---------------------------------------------------------------------------------------------------------------
@@ -1141,4 +1373,40 @@ func c09WitnessBorrowLeak(t *testing.T, app *chain.App, base sdk.Context, tr *Tr
 	_, aid := f.ids()
 	tr.Set("witness_borrow_leak_flagged_borrows", n)
 	tr.Set("witness_borrow_leak_auctions_opened", aid)
+}
+
+// cross-pool borrows through BOTH transit assets, transit thresholds different; the collateral price is put in the middle
+// of the band between the two composite thresholds: exactly the borrows whose OWN composite threshold is the lower one
+// may be seized (sweep, then messages). A swap of first/second transit asset in the decision inverts this.
+func c09WitnessTransitBand(t *testing.T, app *chain.App, base sdk.Context, tr *Trace) {
+	for _, sd := range []uint64{21, 22, 23} {
+		ctx, _ := base.CacheContext()
+		f := c09Build(t, app, ctx, 2, NewRng(sd), tr, true)
+		c09LendFixture(f)
+		f.setBatch(7)
+		for _, a := range f.apps {
+			f.setWl2(a, true)
+		}
+		tr.Line("liq.begin", "v2", "7")
+		f.block()
+		var cross []c09Borrow
+		for _, r := range f.borrowRecords() {
+			if !r.bridged.IsZero() {
+				cross = append(cross, r)
+			}
+		}
+		if len(cross) == 0 {
+			t.Fatal("witness: no cross-pool borrow")
+		}
+		f.aimBorrowAt(cross[0], 2, 0)
+		f.block()
+		for _, r := range cross {
+			f.liquidateMsg(r.id, 3, 1)
+		}
+		f.aimBorrowAt(cross[len(cross)-1], 2, 0)
+		f.block()
+		for _, r := range cross {
+			f.liquidateMsg(r.id, 3, 1)
+		}
+	}
 }
